@@ -16,6 +16,8 @@
 (*         For a multisig wallet the key tables of its cosigner wallets:   *)
 (*         tree shape, documented path (BIP45 / BIP48) of every key, every *)
 (*         position of the multisig wallet present.                        *)
+(*  restore the key table of a wallet and the tables of the wallets        *)
+(*         restored from its material (for conforming histories).          *)
 (*  key    one key of such a table with the key it hangs under: TLC        *)
 (*         decides with the operators of Bip32 (CKDpriv / CKDpub, master   *)
 (*         key generation) whether its private key, public key, chain      *)
@@ -209,6 +211,12 @@ JTrace(r) ==
        ELSE IF cb # 0 THEN Verdict(CoTreeWhy(cfg, r.cotrees[cb], f.s.keys), <<>>, cb, <<>>)
        ELSE Good
 
+\* ---- restored wallets (judged for wallets whose histories conform): identical address at every position
+JRestore(r) ==
+    LET cfg == Cfg(r.cfg)
+        rb  == FirstBad(Len(r.restored), LAMBDA i : RestoredWhy(cfg, r.keys, r.restored[i]))
+    IN IF rb # 0 THEN Verdict(RestoredWhy(cfg, r.keys, r.restored[rb]), <<>>, rb, <<>>) ELSE Good
+
 (* =============================== key ====================================== *)
 FromObs(F, o) ==
     IF o.priv THEN B!MkPriv(F, o.k, o.c, o.depth, o.fp, o.idx)
@@ -294,6 +302,7 @@ JKey(r) ==
        ELSE Good
 
 Judge(r) == CASE r.k = "trace" -> JTrace(r)
+              [] r.k = "restore" -> JRestore(r)
               [] r.k = "key" -> JKey(r)
               [] OTHER -> Verdict("unknown-record-kind", <<>>, 0, <<>>)
 
